@@ -4,8 +4,17 @@ usage: xmatrix.py [neutral|seeds|seeded|all]   (run with /venv/bin/python)"""
 import json, os, sys
 V = '/verif'
 sys.path.insert(0, V)
-from sa.main import analyse_variant, PIDS
+from sa.main import analyse_variant, analyse_variant_all, PIDS
 from concurrent.futures import ProcessPoolExecutor
+
+def one_all(a):
+  kind, d = a
+  try:
+    r = analyse_variant_all(os.path.join(V, kind, d, 'patch.diff'))
+  except Exception as e:
+    return [(kind, d, pid, 'error %r' % e, []) for pid in PIDS]
+  return [(kind, d, pid, st, sorted(set(k.split('|')[0] for k in keys)) if keys else []) for pid, (st, keys) in r.items()]
+
 
 def one(a):
   kind, d, pid = a
@@ -30,9 +39,12 @@ if __name__ == '__main__':
       own[(kind, d)] = meta.get('properties') or [meta.get('property')]
       if meta.get('expected_miss'):
         expected_miss.add((kind, d))
-      jobs += [(kind, d, p) for p in PIDS]
+      jobs += [(kind, d)] if not os.environ.get('XM_SEPARATE') else [(kind, d, p) for p in PIDS]
   with ProcessPoolExecutor(16) as ex:
-    res = list(ex.map(one, jobs, chunksize=4))
+    if os.environ.get('XM_SEPARATE'):
+      res = list(ex.map(one, jobs, chunksize=4))
+    else:
+      res = [x for chunk in ex.map(one_all, jobs, chunksize=1) for x in chunk]
   bad = 0
   for (kind, d), o in own.items():
     hits = {p: k for (kk, dd, p, st, k) in res if (kk, dd) == (kind, d) and (k or st not in ('applied', 'skipped'))}
